@@ -25,6 +25,7 @@ func tmpDir() string {
 }
 
 func loadCase(spec string, file []byte) string {
+	pend("load %s %s", spec, hex.EncodeToString(file))
 	p := filepath.Join(tmpDir(), "prog.bin")
 	os.WriteFile(p, file, 0600)
 	cfg := emuconfig.DefaultConfig()
